@@ -400,7 +400,6 @@ class ValueWrapper(Term):
         if isinstance(value, (date, time)):
             return cls.get_formatted_value(value.isoformat(), ctx)
         if isinstance(value, str):
-            value = value.replace(quote_char, quote_char * 2)
             if ctx.dialect is Dialects.MYSQL:
                 value = value.replace("\\", "\\\\")
             return format_quotes(value, quote_char)
@@ -462,7 +461,7 @@ class JSON(Term):
 
     @staticmethod
     def _get_str_sql(value: str, quote_char: str = '"', **kwargs: Any) -> str:
-        return format_quotes(value, quote_char)
+        return "{quote}{value}{quote}".format(value=value, quote=quote_char)
 
     def get_sql(self, ctx: SqlContext) -> str:
         sql = format_quotes(self._recursive_get_sql(self.value), ctx.secondary_quote_char)
